@@ -154,7 +154,15 @@ CLAIMS = {
                      "driver model's limit 96; no condition on the sink). The DEFAULT mode over the chunked queue (exact_errors = false, bulk reads, SIMD scan) never runs out of fuel either "
                      "with the same bound, both tokenizers (TokIR/BulkTerm.v: step counting through BulkSim's simulation + QueueSim; "
                      "C03_default_mode_run_is_regular, C15_default_mode_run_is_regular); and NO PANIC SITE is reached there either (Inst/InstTotalDefault.v: a regular default-mode run has the log of the reference run; C04_html_tokenizer_total_default_mode(+_no_pauses), C04_xml_tokenizer_total_default_mode(+_no_pauses)) - the real default configuration of both tokenizers (exact_errors = false, BufferQueue chunks, bulk reads, SIMD scan) terminates and never panics, with the same caveats (driver pause limit 96; html end() assert site 4 unless the sink never pauses; for site 4 the exact condition - a character put back by the reference flush or stashed by eat() is '>', i.e. an entity key containing '>' - is decided false on the regenerated step table and the pinned entity table as reflective facts, C04_html_site4_condition_is_false_on_the_pinned_tables, but the invariant proof that end()'s final run reads nothing else is NOT done, so site 4 stays a stated caveat). "
-                     "Tree builders, stack depth and "
+                     "ALL INPUT CONSUMED is a theorem for the html tokenizer (TokIR/NoPanic.v feed_consumes / feed_loop_consumes; "
+                     "C04_html_feed_done_means_all_input_consumed, C04_html_feed_loop_done_means_all_input_consumed): whenever feed() "
+                     "- or the driver's feed loop with script pauses and injected text - answers Done, the input queue is empty (what "
+                     "the tokenizer holds back lives in its own buffers); reference semantics, any machine satisfying the two "
+                     "invariants, fuel above the bound; and WITHOUT any invariant or fuel hypothesis, for BOTH tokenizers "
+                     "(TokIR/Consumed.v, Inst/InstConsumed.v: C04_html_feed_done_means_all_input_consumed_unconditional, "
+                     "C04_html_feed_loop_..._unconditional, C04_xml_feed_done_means_all_input_consumed, C04_xml_feed_loop_done_...; "
+                     "only table condition: no step arm ends in the Eof terminator, decided on both regenerated tables). "
+                     "The single-EOF clause stays with the harness oracles. Tree builders, stack depth and "
                      "time are covered by the harness only (panic/abort/hang watch, queue-empty and single-EOF oracles, deep nesting).",
                 note=TOK_NOTE, tech="reflective Coq checks (EOF rank, char-ref states) + Coq termination proof of the tokenizer interpreter with explicit fuel bound (potential function, rank check on the regenerated table) + totality oracle incl. pathological inputs"),
     "C08": dict(cat="proof", ref="DESIGN.md section 5 C08",
